@@ -11,6 +11,8 @@ from implrun import new_app, environ, call
 import dispatch_common as dc
 
 SCRATCH = "/root/scratch"
+NONASCII = [("X-Greeting", "Dobr\u00fd den \u4e2d"),
+            ("X-Looks-Converted", "\u00c3\u00a9")]
 EXTRA = [("X-One", "1"), ("Set-Cookie", "a=1"), ("Set-Cookie", "b=2"),
          ("X-Two", "dva")]
 
@@ -51,8 +53,15 @@ def run(ctx):
     app = new_app()
     app.set_route("/r", lambda req: cur["v"]())
 
+    app.set_route("/r", lambda req: cur["v"](), 511)
+    asked = {"n": 0}
+
     def ask():
-        return call(app, environ(path="/r"))
+        # the property does not depend on the request method: the body a
+        # handler returns is what the framework hands to the server
+        asked["n"] += 1
+        method = ("GET", "HEAD", "POST", "GET", "PUT")[asked["n"] % 5]
+        return call(app, environ(method=method, path="/r"))
 
     def bad(key, detail, ans):
         ctx.violation(key, dict(detail, status=ans.status,
@@ -63,7 +72,9 @@ def run(ctx):
     # ---- correspondence through the model: pool values + random ones
     scenarios = []
     for v in dc.VAL_POOL:
-        scenarios.append(dc.Scenario(leaf=("endpoint", ("ret", v))))
+        for method in ("GET", "HEAD"):
+            scenarios.append(dc.Scenario(leaf=("endpoint", ("ret", v)),
+                                         method=method))
     for _ in range(n):
         roll = rng.random()
         if roll < 0.3:
@@ -84,15 +95,19 @@ def run(ctx):
             st = rng.choice(sorted(responses))
             hk = rng.choice(["hdrs", "hdrs_list", "hdrs_obj"])
             v = ("tuple", [("bytes", b"tb"), ("str", "application/x-t"),
-                           (hk, rng.sample(EXTRA, rng.randint(0, 4))),
+                           (hk, rng.sample(EXTRA + NONASCII,
+                                           rng.randint(0, 5))),
                            ("int", st)][:rng.randint(1, 4)])
-        scenarios.append(dc.Scenario(leaf=("endpoint", ("ret", v))))
+        scenarios.append(dc.Scenario(
+            leaf=("endpoint", ("ret", v)),
+            method=rng.choice(["GET", "GET", "HEAD", "POST", "PUT",
+                               "DELETE"])))
     for sc, ans, trace in dc.run_scenarios(ctx, "shapes", scenarios):
         v = sc.leaf[1][1]
         ctx.case(("shape", repr(v)), True, {"value": repr(v)[:120],
                                             "status": ans.status})
         ctx.count("shape=%s" % v[0])
-        det = {"value": repr(v)[:200]}
+        det = {"value": repr(v)[:200], "method": sc.method}
         if ans.raised is not None:
             bad("exception-escaped", det, ans)
             continue
@@ -133,7 +148,8 @@ def run(ctx):
                 if items[2][0] == "hdrs":
                     given = list(dict(given).items())
                 for pair in given:
-                    if tuple(pair) not in [tuple(h) for h in ans.headers]:
+                    wire = tuple(Headers.iso88591(x) for x in pair)
+                    if wire not in [tuple(h) for h in ans.headers]:
                         bad("tuple-header-missing", det, ans)
             if len(items) > 3 and ans.code != items[3][1]:
                 bad("tuple-status", det, ans)
@@ -144,8 +160,10 @@ def run(ctx):
     with open(path, "wb") as fil:
         fil.write(b"file-content")
 
-    def mk(name, hdrs):
+    def mk(name, hdrs, as_obj=False):
         h = list(hdrs)
+        if as_obj:
+            h = Headers(h)      # a ready Headers collection is adopted as is
         if name == "Response":
             return R.Response("data", headers=h)
         if name == "JSONResponse":
@@ -180,26 +198,38 @@ def run(ctx):
             subsets = [[], EXTRA, EXTRA[1:3], [("Content-Type", "x/own")],
                        [("Content-Length", "3"), ("X-One", "1")],
                        [("content-type", "x/lower")],
-                       [("CONTENT-TYPE", "x/upper"), ("content-length", "4")]]
-            for hdrs in subsets:
+                       [("CONTENT-TYPE", "x/upper"), ("content-length", "4")],
+                       [("X-Greeting", "Dobr\u00fd den \u4e2d"),
+                        ("Set-Cookie", "city=\u00dast\u00ed"),
+                        ("Set-Cookie", "city=\u00c3\u00a9")]]
+            for hdrs, as_obj in [(h, o) for h in subsets
+                                 for o in (False, True)]:
                 holder = {}
 
-                def make(name=name, hdrs=hdrs):
-                    res = mk(name, hdrs)
+                def make(name=name, hdrs=hdrs, as_obj=as_obj):
+                    res = mk(name, hdrs, as_obj)
                     if hasattr(res, "add_header"):
                         res.add_header("X-Late", "late")
                     holder["before"] = list(res.headers.items())
                     return res
                 cur["v"] = make
                 ans = ask()
-                det = {"class": name, "headers": hdrs}
-                ctx.case(("class", name, repr(hdrs)), True, det)
+                det = {"class": name, "headers": hdrs,
+                       "given_as_Headers_object": as_obj}
+                ctx.case(("class", name, repr(hdrs), as_obj), True, det)
                 ctx.count("class=%s" % name)
                 if ans.raised is not None or len(ans.calls) != 1:
                     bad("class-emission-failed", det, ans)
                     continue
                 emitted = [tuple(h) for h in ans.headers]
                 want = [tuple(h) for h in holder["before"]]
+                # the texts the handler supplied, transcoded once
+                for k, v in hdrs:
+                    wire = (Headers.iso88591(k), Headers.iso88591(v))
+                    if wire not in want and \
+                            wire[0].lower() not in ("content-length",):
+                        bad("header-text-changed-on-construction",
+                            dict(det, supplied=(k, v)), ans)
                 # every header present when handed back appears unchanged
                 # (multiset inclusion, in order)
                 pos = 0
@@ -236,7 +266,8 @@ def run(ctx):
         "bytes, JSON values to depth 3 (incl. {} and []), byte iterables, "
         "tuples of length 1-4 with headers as dict/list/Headers and every "
         "registered status code, compared with the model and checked by a "
-        "decode oracle; 12 response classes x 5 header sets for header "
-        "preservation; distinct by value/class" % len(dc.VAL_POOL),
+        "decode oracle, under request methods GET/HEAD/POST/PUT; 12 response "
+        "classes x 8 header sets (incl. letter case, non-ASCII, repeated "
+        "Set-Cookie) x {list, Headers object} for header preservation; distinct by value/class" % len(dc.VAL_POOL),
         assumptions=["json.dumps/json.loads are CPython's (the model takes "
                      "the dumps text as given)"])
